@@ -78,7 +78,7 @@ def oracle(changes, arg, loaded_before):
 
 def reload_step(f1: int, k1: int, two: bool, f2: int, k2: int) -> bool:
     """
-    pre: 0 <= f1 < len(FILES) and 0 <= k1 <= 3 and 0 <= f2 < len(FILES) and 0 <= k2 <= P("maxk2") and (two or (f2 == 0 and k2 == 0)) and (not two or f1 != f2) and (P("arg") <= 1 or k1 <= 1)
+    pre: 0 <= f1 < len(FILES) and 0 <= k1 <= 3 and 0 <= f2 < len(FILES) and 0 <= k2 <= P("maxk2") and (two or (f2 == 0 and k2 == 0)) and (not two or f1 != f2) and (P("arg") <= 1 or k1 <= 1) and (P("k1") is None or k1 == P("k1"))
     post: _
     """
     from vlib.world import mkworld
@@ -145,11 +145,13 @@ def reload_step(f1: int, k1: int, two: bool, f2: int, k2: int) -> bool:
 def obligations(tier):
     o = []
     for ai, arg in enumerate(RELOAD_ARGS):
-        o.append(Obl(f"C10.reload.{'default' if arg is None else 'all' if arg == '*' else arg}", __name__, "reload_step", {"arg": ai, "maxk2": 0 if tier == "quick" else 3},
-                     timeout=1500 if tier == "quick" else 3000,
-                     desc=f"pyscript.reload(global_ctx={arg!r}) after symbolic edits: the discarded-and-recreated contexts are exactly the changed files, every file of a package containing a change and "
-                          "everything that directly or transitively imports a changed module; all other contexts are the identical objects; the loaded set afterwards is exactly the auto-loaded existing "
-                          "files plus the modules they import",
-                     sym="first change: file index (10) x kind {touch, modify, delete, #-rename}; optional second change (quick: a touch) on another file - symbolic", real_loop=False,
-                     encodes=("__init__.load_scripts", "global_ctx.GlobalContext.module_import")))
+        for k1 in ((0, 1, 2, 3) if ai <= 1 else (None,)):          # (partitioned by the kind of the first change only to use all cores)
+            nm = 'default' if arg is None else 'all' if arg == '*' else arg
+            o.append(Obl(f"C10.reload.{nm}" + ("" if k1 is None else "." + KINDS[k1].replace("#", "")), __name__, "reload_step", {"arg": ai, "maxk2": 0 if tier == "quick" else 3, "k1": k1},
+                         timeout=1500 if tier == "quick" else 3000,
+                         desc=f"pyscript.reload(global_ctx={arg!r}) after symbolic edits: the discarded-and-recreated contexts are exactly the changed files, every file of a package containing a change and "
+                              "everything that directly or transitively imports a changed module; all other contexts are the identical objects; the loaded set afterwards is exactly the auto-loaded existing "
+                              "files plus the modules they import",
+                         sym="first change: file index (10) x kind {touch, modify, delete, #-rename}; optional second change (quick: a touch) on another file - symbolic", real_loop=False,
+                         encodes=("__init__.load_scripts", "global_ctx.GlobalContext.module_import")))
     return o
